@@ -944,11 +944,6 @@ int main(int argc, char** argv) {
     if (V.tris == 0) c.count("empty_results");
     MeshGL64 g = p.m.GetMeshGL64();
     uint64_t h = byteHash(g, false);
-    if (const char* dp = getenv("C07_DUMP_HASH")) {
-      FILE* f = fopen(dp, "a");
-      fprintf(f, "%s %016llx\n", name.c_str(), (unsigned long long)h);
-      fclose(f);
-    }
     if (c.distinct(h)) c.count("states");
     if (V.nonEmptyRuns >= 2) c.nontrivial(h);
     for (auto& kv : V.viol)
